@@ -114,6 +114,8 @@ DRIVERS = {
             ("follow", [], 800, 16000)],
     "C16": [("rand", ["-maxv", "4", "-weird", "0.6"], 480, 12000), ("rand", ["-maxv", "3", "-weird", "0.9"], 160, 4000),
             ("exhaust", ["-v", "3", "-outs", "nil,err", "-orders", "1", "-limit", "1"], 0, 0),
+            ("exhaust", ["-v", "0", "-outs", "nil", "-orders", "3"], 0, 0),  # the empty graph (plain, reversed, shuffled: the same)
+            ("exhaust", ["-v", "1", "-outs", "nil,err,skipparents", "-orders", "1", "-serial"], 0, 0),
             ("follow", [], 480, 16000)],
 }
 THOROUGH_EXTRA = {
